@@ -228,7 +228,7 @@ def showFull (l : List Client) : String :=
 inductive Line where
   | op (o : Op)
   | badIDs (e : SetErr)
-  | restart
+  | restart (src : RuntimeSources)
 
 def parseOp (op : String) (ins : List String) : Option Line := do
   match op, ins with
@@ -252,7 +252,9 @@ def parseOp (op : String) (ins : List String) : Option Line := do
   | "C04.remove", [name] => pure (.op (.remove (← hexDecode name)))
   | "C04.dhcpset", [k, a, z, mac] => pure (.op (.dhcpSet (← parseIP k a z) (← hexDecode mac)))
   | "C04.dhcpdel", [k, a, z] => pure (.op (.dhcpDel (← parseIP k a z)))
-  | "C04.restart", [] => pure .restart
+  | "C04.restart", [] => pure (.restart ⟨false, false, false, false, false⟩)
+  | "C04.restart", [w, a, r, d, h] =>
+    pure (.restart ⟨← parseBool w, ← parseBool a, ← parseBool r, ← parseBool d, ← parseBool h⟩)
   | _, _ => none
 
 /-- Split the implementation's observation: result, one field per probe, "R", all clients. -/
@@ -276,7 +278,7 @@ def stepOp (st : State) (ln : Line) (impl : List String) : State × String :=
     | .op op => let (m', res) := step st.model op; (m', showRes res, op, false)
     | .badIDs .empty => (st.model, ["err", "emptyID"], .remove [], false)
     | .badIDs .badClientID => (st.model, ["err", "badID"], .remove [], false)
-    | .restart => let (m', res) := st.model.restart st.fixEUI64; (m', showRes res, .remove [], true)
+    | .restart src => let (m', res) := st.model.restart st.fixEUI64 src; (m', showRes res, .remove [], true)
   let out := resS ++ st.probes.map (modelProbe m') ++
     ["R", showAll (m'.index.rangeByName.map fun c => (c.uid, c.ver)), "F", showFull m'.index.rangeByName]
   let agree := out == impl
@@ -302,7 +304,7 @@ def step' (st : Option State) (line : String) : Option State × String :=
     match splitArrow rest with
     | some (n :: ins, impl) =>
       match n.toNat?.bind (fun n => parseProbes n ins) with
-      | some (probes, []) =>
+      | some (probes, _runtimeSources) =>
         -- "ok" (tree as it is) or "ok fix-eui64" (repaired `IDs`)
         let fix := impl == ["ok", "fix-eui64"]
         (some ⟨fix, probes, Storage.empty, World.empty⟩,
